@@ -1,4 +1,5 @@
 from vp.api import Q, Mutant
+from vp.seqir import seqir
 TITLE = "Lists and dequeues keep their contents and order"
 UNITS = ["parsec/class/list.h", "parsec/class/list_item.h", "parsec/class/dequeue.h", "parsec/class/fifo.h"]
 LH, LI, DQ, FF = UNITS
@@ -76,6 +77,16 @@ def queries(ctx):
     add("sort", "nolock", ni=3, nl=3, suffix="_l3", unwindset=sort_uw(3), tiers=T, timeout=3400)
     add("sort", "nolock", ni=4, nl=4, suffix="_l4", unwindset=sort_uw(4), tiers=T, timeout=3400)
     add("sort", "nolock", ni=5, nl=5, suffix="_l5cp", unwindset=sort_uw(5), canon=True, cvp=True, tiers=T, timeout=3400)
+    # concurrent half (Engine S): two threads on the locked entry points
+    SCEN = {1: "push_back_vs_pop_pop", 2: "pop_vs_pop_single_item", 3: "push_sorted_x2_ties", 4: "dequeue_pushfront_popback_vs_popfront",
+            5: "fifo_push_vs_trypop_pop", 6: "unchain_vs_chain_back"}
+    for sc, nm in SCEN.items():
+        tiers = ("quick", "thorough") if sc in (1, 2) else ("thorough",)
+        qs.append(Q("conc_%s_r3" % nm, [], defs=["SCEN=%d" % sc], engine="S", units=UNITS + ["parsec/include/parsec/sys/atomic-gcc.h"],
+                    gen=seqir(["lc.c"], threads=["thread0", "thread1"], rounds=3), unwind=8, timeout=2400, slow=True, tiers=tiers,
+                    info={"symbolic": ["schedule: every SC interleaving with <= 3 scheduling slots per thread"],
+                          "bounds": {"rounds": 3, "threads": 2}, "stubs": [],
+                          "functions": ["parsec_list_push_back/pop_front/push_sorted/unchain/chain_back", "parsec_dequeue_*", "parsec_fifo_*", "parsec_atomic_lock/unlock/trylock"]}))
     return qs
 
 def mutants(ctx):
@@ -94,9 +105,18 @@ def mutants(ctx):
         Mutant("fifo_push_is_lifo", FF, "    parsec_list_push_back((parsec_list_t*)fifo, item);", "    parsec_list_push_front((parsec_list_t*)fifo, item);", queries=["push_back_fifo"]),
         Mutant("dequeue_pop_back_pops_front", DQ, "    return parsec_list_pop_back((parsec_list_t*)dequeue);", "    return parsec_list_pop_front((parsec_list_t*)dequeue);", queries=["pop_back_dq"]),
         Mutant("add_after_back_link_missing", LH, "    position->list_next->list_prev = newel;", "", queries=["add_after_nolock"]),
+        Mutant("pop_front_without_lock", LH, "    parsec_list_lock(list);\n    parsec_list_item_t* item = parsec_list_nolock_pop_front(list);\n    parsec_list_unlock(list);",
+               "    parsec_list_item_t* item = parsec_list_nolock_pop_front(list);", queries=["conc_pop_vs_pop_single_item_r3"]),
+        Mutant("push_back_reads_tail_before_lock", LH, "    parsec_list_lock(list);\n    item->list_prev = _TAIL(list);\n    _TAIL(list)->list_next = item;",
+               "    item->list_prev = _TAIL(list);\n    parsec_list_lock(list);\n    _TAIL(list)->list_next = item;", queries=["conc_push_back_vs_pop_pop_r3"]),
         Mutant("pop_front_leaves_lock_taken", LH, "    parsec_list_item_t* item = parsec_list_nolock_pop_front(list);\n    parsec_list_unlock(list);\n    return item;",
                "    parsec_list_item_t* item = parsec_list_nolock_pop_front(list);\n    return item;", queries=["pop_front_lock"]),
     ]
 
-CLAIMED = False
-MANIFEST = {}
+CLAIMED = True
+MANIFEST = {
+ "engine": "cbmc-src",
+ "text": "Bounded model checking of the real list.h / list_item.h / dequeue.h / fifo.h, one operation from every valid pre-state: the solver chooses the list (0..4 items out of 5 static objects, any naming), the priorities (any int, ties included), stale pointers of detached items, the argument ring (1..3 items) and the position; after ONE real operation the pointer structure is read back (forward links, back links, termination at the ghost) and compared position by position with a sequence model.  Covered: push/pop front/back, chain front/back, unchain, remove, add_before/after, contains, is_empty, the iterator macros, every parsec_list_* locked variant, every parsec_dequeue_* and parsec_fifo_* wrapper (sequential effect, lock released, try_pop with the lock held elsewhere returns NULL and changes nothing), push_sorted and chain_sorted (list stays non-increasing, the new element goes AFTER existing elements of equal priority, ring order kept among equals), ring_push_sorted (documented position, returned head is the maximum), ring push/merge/chop/close, and the mergesort behind parsec_list_sort (permutation, monotone, links intact).",
+ "note": "Concurrent linearizability of the locked variants is outside (sequential effect + lock discipline only).  parsec_list_sort orders by NON-DECREASING value, the reverse of what push_sorted maintains; asserted as implemented and recorded as an observation.  Expensive queries use canonical item naming and an equivalent rewrite of COMPARISON_VAL (listed per query).",
+ "technique": "CBMC bounded symbolic execution of the real headers from symbolic valid pre-states (inductive step per operation) + SAT (cadical); exact comparison with a sequence model",
+}
